@@ -15,6 +15,7 @@
 #include "core/type_inference.h"
 #include "evaluator/core/evaluator.h"
 #include "evaluator/functions/generic_instantiation.h"
+#include "executors/assignments/const_check_helpers.h"
 #include "executors/control_flow_executor.h" // 制御フロー実行サービス
 #include "executors/statement_executor.h"    // ヘッダーから移動
 #include "executors/statement_list_executor.h" // 文リスト・複合文実行サービス
@@ -2279,6 +2280,10 @@ void Interpreter::assign_struct_to_array_element(const std::string &array_name,
             }
         }
     }
+
+    // rs[0] = o: 要素の初期化済みの const メンバーは上書きできない
+    AssignmentHelpers::check_struct_store_over_const_members(
+        *this, element_name, *element_var);
 
     // 構造体データをコピー
     element_var->struct_members = struct_value.struct_members;
